@@ -227,6 +227,8 @@ type wcfg struct {
 	// Opts: the options object handed to the constructor, when several sessions are to share one (as the sessions
 	// of one acceptor naturally do)
 	Opts *session.Opts
+	// Location: Opts.Location (the zone the session writes its timestamps in; "" = UTC)
+	Location string
 }
 
 type world struct {
@@ -265,6 +267,7 @@ func optsFor(c wcfg) *session.Opts {
 	if c.SeqReset {
 		o.MessageBuilders.SequenceResetBuilder = fixgen.SequenceReset{}.New()
 	}
+	o.Location = c.Location
 	return o
 }
 
